@@ -56,7 +56,16 @@ def _to_str(v):
 
 _BUILTINS = {"len": len, "bool": bool, "int": int, "str": str, "min": min, "max": max, "abs": abs, "bytes": bytes, "repr": repr,
              "tuple": lambda x=(): tuple(x), "list": lambda x=(): tuple(x), "sorted": lambda x: tuple(sorted(x)), "sum": sum, "any": any, "all": all,
-             "range": range, "set": lambda x=(): frozenset(x), "frozenset": lambda x=(): frozenset(x)}
+             "range": range, "set": lambda x=(): frozenset(x), "frozenset": lambda x=(): frozenset(x),
+             "zip": lambda *a: tuple(zip(*[_ordered(x) for x in a])), "enumerate": lambda x, start=0: tuple(enumerate(_ordered(x), start)),
+             "reversed": lambda x: tuple(reversed(_ordered(x)))}
+
+
+def _ordered(x):
+    """zip/enumerate/reversed need a sequence with a defined order; a set model has none"""
+    if isinstance(x, (tuple, str, bytes, range)):
+        return x
+    raise q.NotFoldable("iteration order unknown")
 
 PURE_TEXT_METHODS = {"join", "encode", "decode", "lower", "upper", "strip", "lstrip", "rstrip", "startswith", "endswith", "split", "rsplit", "partition",
                      "rpartition", "replace", "format", "title", "capitalize", "zfill", "hex", "isdigit", "find", "count"}
@@ -229,8 +238,16 @@ def _fold3(e: ast.AST, known: Dict[str, object]):
         return last
     if isinstance(e, ast.UnaryOp) and isinstance(e.op, ast.Not):
         return not _fold3(e.operand, known)
-    if isinstance(e, (ast.Tuple, ast.List, ast.Set)) and not any(isinstance(x, ast.Starred) for x in e.elts):
-        vals = [_fold3(x, known) for x in e.elts]
+    if isinstance(e, (ast.Tuple, ast.List, ast.Set)):
+        vals = []
+        for x in e.elts:
+            if isinstance(x, ast.Starred):
+                inner = _fold3(x.value, known)
+                if not isinstance(inner, (tuple, frozenset, str, bytes, range)):
+                    raise q.NotFoldable("starred non-sequence")
+                vals.extend(sorted(inner) if isinstance(inner, frozenset) else inner)
+            else:
+                vals.append(_fold3(x, known))
         return frozenset(vals) if isinstance(e, ast.Set) else tuple(vals)
     if isinstance(e, ast.Compare):
         # fold the operands with this evaluator (they may contain conversions, methods, model look-ups), then compare
@@ -255,7 +272,13 @@ def _fold3(e: ast.AST, known: Dict[str, object]):
             raise q.NotFoldable(str(ex))
     if isinstance(e, ast.Name) and e.id not in known and e.id.endswith("]") and "[" in e.id:
         base, _, key = e.id.partition("[")
-        if isinstance(known.get(base), frozenset):
+        if isinstance(known.get(base), (tuple, str, bytes)) and not known.get("@names-model:" + base):
+            # an element of a sequence whose content is known
+            try:
+                return known[base][ast.literal_eval(key[:-1])]
+            except Exception as ex:
+                raise q.NotFoldable(str(ex))
+        if isinstance(known.get(base), frozenset) or (isinstance(known.get(base), tuple) and known.get("@names-model:" + base)):
             try:
                 k = ast.literal_eval(key[:-1])
             except Exception:
@@ -337,7 +360,7 @@ def _fold3(e: ast.AST, known: Dict[str, object]):
     if isinstance(e, ast.Call) and isinstance(e.func, ast.Attribute) and e.func.attr == "get" and not e.keywords and 1 <= len(e.args) <= 2:
         # the header-set model: presence is known, values are not (a present value is a non-empty marker string)
         d = q.dotted(e.func.value)
-        if d is not None and isinstance(known.get(d), frozenset):
+        if d is not None and isinstance(known.get(d), (frozenset, tuple)) and known.get("@names-model:" + d, isinstance(known.get(d), frozenset)):
             k = _fold3(e.args[0], known)
             if k in known[d]:
                 return known.get("%s[%r]" % (d, k), "<%s>" % k)
@@ -431,6 +454,8 @@ def _assign_target(env: Dict[str, object], t: ast.AST, val, value_expr: Optional
             cur = env.get(d)
             if isinstance(cur, frozenset):
                 env[d] = cur | {t.slice.value}
+            elif isinstance(cur, tuple) and env.get("@names-model:" + d) and t.slice.value not in cur:
+                env[d] = cur + (t.slice.value,)  # ordered model of the distinct names (insertion order)
             key = "%s[%r]" % (d, t.slice.value)
             if key in env or val is not UNK:
                 env[key] = val if _hashable(val) else UNK
@@ -759,7 +784,7 @@ def pure_self_methods(repo, relpath: str, clsname: str) -> Set[str]:
                     break
                 else:
                     fn = q.dotted(c.func)
-                    if fn in PURE_FUNCS or fn in IDENTITY_CALLS:
+                    if fn in PURE_FUNCS or fn in IDENTITY_CALLS or fn in _BUILTINS or fn in ("any", "all", "sum", "map", "filter", "next", "iter", "ord", "chr", "round", "divmod", "format", "frozenset"):
                         continue
                     pure.discard(name)
                     changed = True
